@@ -989,9 +989,38 @@ def bare_scalar_mech(tgt, case, c1, c2):
     return []
 
 
+def judge_ignored_instance(J, tgt, f, kg, rng, spec, asg, fixed):
+    """'the instance for methods': with ignore=('self', ...) the same call on two instances of the class - one of
+    them 'empty' (falsy) - shares one key, and building the key must work for both"""
+    case = J.case
+    c = spell(rng, spec, asg, tgt.defaults, fixed)
+    if _call_ok(tgt, *c) is None:
+        return
+    other = type('C2', (type(tgt.inst),), {'__len__': (lambda self: 3) if spec.get('_falsy') else (lambda self: 0)})()
+    keys = []
+    for inst in (tgt.inst, other):
+        try:
+            keys.append((f.key(inst, *c[0], **c[1]), kg(inst, *c[0], **c[1])))
+        except Exception as e:
+            keys.append(e)
+    J.note('c11_instance_pairs')
+    if isinstance(keys[0], Exception) != isinstance(keys[1], Exception):
+        e = keys[0] if isinstance(keys[0], Exception) else keys[1]
+        J.bad('C11', 'ignored-instance-made-key-fail',
+              'ignore=%r: key(%s) works on one instance and raises %s: %s on another (a falsy one) of the same class'
+              % (case['ignore'], srepr(c), type(e).__name__, str(e)[:100]))
+    elif not isinstance(keys[0], Exception) and not (_same(keys[0][0], keys[1][0]) and _same(keys[0][1], keys[1][1])):
+        J.bad('C11', 'ignored-instance-changed-key',
+              'ignore=%r: the call %s on two instances of the class gets keys %s and %s although the instance is ignored'
+              % (case['ignore'], srepr(c), srepr(keys[0][0])[:100], srepr(keys[1][0])[:100]),
+              mech=nonflat_order_mech(tgt, case, c, c))
+
+
 def judge_ignore(J, tgt, f, kg, rng, spec, asg, fixed, pool):
     case = J.case
     ign = case.get('ignore') or []
+    if tgt.kind == 'method' and 'self' in ign and rng.random() < 0.5:
+        judge_ignored_instance(J, tgt, f, kg, rng, spec, asg, fixed)
     slots, star, dstar = ignored_slots(spec, ign, tgt.kind, fixed)
     # (1) calls differing only in ignored slots
     cands = set(slots)
